@@ -3,6 +3,7 @@ package main
 import (
 	"fmt"
 	"go/token"
+	"go/types"
 	"os"
 	"strconv"
 	"strings"
@@ -807,6 +808,26 @@ func (ex *executor) scalarKey(st *pstate, name string, t *Term) string {
 	return name
 }
 
+// knownNilness: 1 = the nil literal, -1 = known non-nil (a package-level variable of type error — the same
+// convention as Path.RetNil — or a freshly made error), 0 = unknown.
+func knownNilness(t *Term) int {
+	switch t.Op {
+	case "nil":
+		return 1
+	case "global":
+		if g, ok := t.V.(*ssa.Global); ok {
+			if pt, ok := g.Type().(*types.Pointer); ok && pt.Elem().String() == "error" {
+				return -1
+			}
+		}
+	case "call":
+		if strings.HasPrefix(t.Sym, "errors.New") || strings.HasPrefix(t.Sym, "fmt.Errorf") {
+			return -1
+		}
+	}
+	return 0
+}
+
 func (ex *executor) evalCond(st *pstate, t *Term) condEval {
 	dom := ex.dom
 	switch {
@@ -840,6 +861,11 @@ func (ex *executor) evalCond(st *pstate, t *Term) condEval {
 			v = a != b
 		}
 		return condEval{kind: "const", value: v}
+	case t.Op == "bin" && (t.Sym == "==" || t.Sym == "!=") && (t.Args[0].Op == "nil" || t.Args[1].Op == "nil") && knownNilness(t.Args[0]) != 0 && knownNilness(t.Args[1]) != 0:
+		// a comparison with nil of a value whose nil-ness is known (typically the error result of an inlined callee:
+		// nil on its success path, a package-level error variable or errors.New(…) on its failure path)
+		eq := knownNilness(t.Args[0]) == knownNilness(t.Args[1])
+		return condEval{kind: "const", value: eq == (t.Sym == "==")}
 	case t.Op == "bin" && (t.Sym == "<" || t.Sym == "<=" || t.Sym == "==" || t.Sym == "!="):
 		x, y := t.Args[0], t.Args[1]
 		op := t.Sym
